@@ -128,16 +128,19 @@ func VpHIter() {
 	now := vpU64("now")
 	vpAssume(now < 1<<40)
 	vpStub("time.Now", func() time.Time { return time.Unix(int64(now), 0) })
+	// iter.opts=0: no SinceTs / Prefix / Seek / second prefetch size (the multi-key variant of the
+	// quick tier spends its budget on keys x versions instead)
+	opts := vpParam("iter.opts", 1) == 1
 	sinceTs := uint64(0)
-	if vpChoose("since", 2) == 1 {
+	if opts && vpChoose("since", 2) == 1 {
 		sinceTs = vpU64("sinceTs")
 		vpAssume(sinceTs > 0)
 	}
 	var prefix []byte
-	if vpChoose("prefix", 2) == 1 {
+	if opts && vpChoose("prefix", 2) == 1 {
 		prefix = vpBytes("prefix", 1)
 	}
-	seekMode := vpChoose("seek", 2) == 1
+	seekMode := opts && vpChoose("seek", 2) == 1
 	var seekKey []byte
 	if seekMode {
 		seekKey = vpBytes("seekKey", 1+vpChoose("seeklen", vpParam("iter.seeklen", 1)))
@@ -156,7 +159,7 @@ func VpHIter() {
 		txn:    txn,
 		iitr:   vpListIterOf(ents, reverse),
 		readTs: readTs,
-		opt:    IteratorOptions{Reverse: reverse, AllVersions: allVersions, SinceTs: sinceTs, Prefix: prefix, PrefetchSize: 1 + vpChoose("prefetch", 2)},
+		opt:    IteratorOptions{Reverse: reverse, AllVersions: allVersions, SinceTs: sinceTs, Prefix: prefix, PrefetchSize: 1 + vpChoose("prefetch", 1+vpParam("iter.opts", 1))},
 	}
 
 	// ---- reference: which entries are yielded ----
